@@ -149,7 +149,7 @@ func VerifC09_MidRun() {
 
 // VerifC09_LimitedRead: limited file reads refuse larger files.
 func VerifC09_LimitedRead() {
-	_, fs := vNewFs()
+	rec, fs := vNewFs()
 	size := verif.Len("size", 0, 3)
 	_ = fs.WriteFile("/f", bytes.Repeat([]byte("x"), size), 0o644)
 	max := int64(verif.Len("maxFileSize", 0, 4))
@@ -159,4 +159,5 @@ func VerifC09_LimitedRead() {
 	} else if size > 0 {
 		verif.Assert("file_within_limit_is_read_whole", err == nil && len(content) == size)
 	}
+	verif.Assert("handles_balanced", rec.opens == rec.closes)
 }
